@@ -165,6 +165,7 @@ type Block struct {
 	Encl EnclKind
 	File int // 0 = a.go (with the type declarations in package d), 1 = b.go, 2 = c_test.go
 	ID   int // stable identity across layout transformations (0 = use the position in the history)
+	Ignore string // optional stand-alone comment placed directly before the declaration (travels with it)
 }
 
 func (b Block) String() string { return fmt.Sprintf("%s@%d", b.Encl, b.File) }
@@ -205,6 +206,7 @@ type Spec struct {
 	Single *Single // when set: render only this one site under this wrapper in every block
 	BlankLines bool // layout perturbation: blank line + plain comment before every declaration and statement
 	Mangle     int  // text-level layout transformation applied to every file: see Mangle
+	FileIgnore string // optional comment placed before the package clause of every file
 }
 
 type Single struct {
@@ -289,6 +291,8 @@ func preludeD(w *lineWriter, m Mix) {
 		w.add(ind + "Ms []int")
 		w.add(ind + "Xs []int")
 		w.add(ind + "Mp map[string]int")
+		w.add(ind + "Next *T")
+		w.add(ind + "Kids []T")
 	}
 	if m.Extra == 2 {
 		w.add("type (")
@@ -402,6 +406,9 @@ func Render(s *Spec) *Rendered {
 		}
 		w := &lineWriter{}
 		files[i] = w
+		if s.FileIgnore != "" {
+			w.add(s.FileIgnore)
+		}
 		w.add("package " + pkgName)
 		w.add("")
 		if s.InU {
@@ -511,6 +518,9 @@ func (r *renderer) pre(w *lineWriter, indent string) {
 func (r *renderer) block(w *lineWriter, pkgPath string, bi int, b Block) {
 	file := pkgPath + "/" + FileNames[b.File]
 	r.pre(w, "")
+	if b.Ignore != "" && b.Encl != EPkgVarDirect {
+		w.add(b.Ignore)
+	}
 	ptrR := true
 	switch b.Encl {
 	case EPlain:
